@@ -487,7 +487,7 @@ def _norm_tokens(text):
 
 def rule_D19(body):
     """D19 (quote! as a function of its template and its interpolated values): `quote!(TEMPLATE)` / `quote! { TEMPLATE }` is written
-    `quoteN("TEMPLATE", &a, &b, ..)` where a, b, .. are the `#ident` interpolations of TEMPLATE in order of appearance (N of them) and the
+    `quoteN("TEMPLATE", &a, &b, ..)` where a, b, .. are the distinct `#ident` interpolations of TEMPLATE in order of first appearance (N of them; in the kept template text they are written #0, #1, .. so that renaming a local does not change the template) and the
     template text is kept as a string in a token-level normal form (white-space kept only between two word characters).  `quoteN` is an uninterpreted
     function in the template (result = Tok::Q(template, [tokens of a, tokens of b, ..])): WHAT proc_macro2 builds from the template is
     dropped, THAT the result is determined by the template text and the interpolated values is kept.  Repetitions `#( .. )*` are not
@@ -504,8 +504,12 @@ def rule_D19(body):
         inner = body[open_i + 1:close_i - 1]
         if re.search(r"#\s*\(", inner) and not re.fullmatch(r"\s*#\(\s*#[A-Za-z_][A-Za-z0-9_]*\s*\)\*\s*", inner):
             raise LostAnchor("rule D19: quote! template with a repetition other than the whole template `#(#x)*`")
-        args = re.findall(r"#([A-Za-z_][A-Za-z0-9_]*)", inner)
-        tpl = _norm_tokens(inner)
+        args = []
+        for a in re.findall(r"#([A-Za-z_][A-Za-z0-9_]*)", inner):
+            if a not in args:
+                args.append(a)
+        # interpolations are named by position (#0, #1, ..: order of first appearance), so that renaming a local is not a change of the template
+        tpl = _norm_tokens(re.sub(r"#([A-Za-z_][A-Za-z0-9_]*)", lambda m_: "#" + str(args.index(m_.group(1))), inner))
         new = f"quote{len(args)}({_rust_str(tpl)}" + "".join(f", &{a}" for a in args) + ")"
         applied.append(("D19", re.sub(r"\s+", " ", body[mm.start():close_i])[:160], new[:200]))
         body = body[:mm.start()] + new + body[close_i:]
@@ -538,7 +542,12 @@ def rule_D20(body):
         holes = re.findall(r"\{([^{}]*)\}", tpl.replace("{{", "").replace("}}", ""))
         if any(not re.fullmatch(r"[A-Za-z_][A-Za-z0-9_]*", h) for h in holes):
             raise LostAnchor("rule D20: format! hole that is not a plain inline identifier")
-        new = f'format{len(holes)}("{tpl}"' + "".join(f", &{a}" for a in holes) + ")"
+        uniq = []
+        for h in holes:
+            if h not in uniq:
+                uniq.append(h)
+        tpl_pos = re.sub(r"\{([A-Za-z_][A-Za-z0-9_]*)\}", lambda m_: "{" + str(uniq.index(m_.group(1))) + "}", tpl)   # holes named by position
+        new = f'format{len(uniq)}("{tpl_pos}"' + "".join(f", &{a}" for a in uniq) + ")"
         applied.append(("D20", re.sub(r"\s+", " ", body[mm.start():close_i])[:160], new[:200]))
         body = body[:mm.start()] + new + body[close_i:]
         pos = mm.start() + len(new)
